@@ -108,7 +108,7 @@ partial def serEntry : Entry → String
   | .file (.text s) t => s!"f {hex s} {if t then 1 else 0}"
   | .file .binary t => s!"b {if t then 1 else 0}"
   | .symlink => "l"
-  | .dir es => s!"d {es.length} " ++ " ".intercalate (es.map fun (n, e) => s!"{hex n} {serEntry e}")
+  | .dir es => s!"d {es.length}" ++ String.join (es.map fun (n, e) => s!" {hex n} {serEntry e}")
 
 def takeN {α} (n : Nat) (l : List α) : List α × List α := (l.take n, l.drop n)
 
